@@ -32,6 +32,21 @@ func drawGaps(t *rapid.T, n int, rich bool) []string {
 				break
 			}
 			body := rapid.SampledFrom(commentBodies).Draw(t, "comment")
+			if rapid.IntRange(0, 3).Draw(t, "multicomment") == 0 {
+				// a run of comments of both styles in one gap
+				body2 := rapid.SampledFrom(commentBodies).Draw(t, "comment2")
+				switch rapid.IntRange(0, 3).Draw(t, "mcorder") {
+				case 0:
+					gaps[i] = "//" + body + nl + "#" + body2 + nl
+				case 1:
+					gaps[i] = " #" + body + nl + "\t//" + body2 + nl
+				case 2:
+					gaps[i] = "//" + body + nl + "  # " + body2 + nl + "//" + body + nl
+				default:
+					gaps[i] = "#" + body + nl + "#" + body2 + nl + nl + "//" + nl
+				}
+				break
+			}
 			switch k {
 			case 16:
 				gaps[i] = "#" + body + nl
